@@ -109,7 +109,8 @@ def gen_net(rng, n_inputs=(1, 5), n_gates=(1, 10), types=None, max_arity=4, cons
         gates.append(n)
     if cyclic and gates:
         order = list(nodes)
-        for _ in range(rng.randint(1, 3)):
+        lo, hi = cyclic if isinstance(cyclic, (tuple, list)) else (1, 3)
+        for _ in range(rng.randint(lo, hi)):
             g = rng.choice(gates)
             later = [x for x in gates if order.index(x) > order.index(g)]
             if not later:
